@@ -30,7 +30,7 @@ SLOTS = [-3.0, 2.5, 5.0, 7.5, 10.0, 14.0, 20.0, 30.0, 40.0, 40.0]
 def plan(prop: str, tier: str) -> Plan:
     if tier == "quick":
         return Plan(shards=4, cases_per_shard=1500, timeout_s=400)
-    return Plan(shards=16, cases_per_shard=30000, timeout_s=3000)
+    return Plan(shards=16, cases_per_shard=150000, timeout_s=3000)
 
 
 def base_scenario(r, job_times: List[float]) -> Dict[str, Any]:
